@@ -5,6 +5,7 @@ package serixgen
 
 import (
 	"encoding/binary"
+	"encoding/hex"
 	"errors"
 	"fmt"
 	"math/big"
@@ -195,6 +196,27 @@ func (c *CustomVar) Decode(b []byte) (int, error) {
 	c.B = append([]byte{}, b[2:2+n]...)
 
 	return 2 + n, nil
+}
+
+// EncodeJSON implements serix.SerializableJSON.
+func (c CustomVar) EncodeJSON() (any, error) { return fmt.Sprintf("var:%x", c.B), nil }
+
+// DecodeJSON implements serix.DeserializableJSON.
+func (c *CustomVar) DecodeJSON(v any) error {
+	s, ok := v.(string)
+	if !ok || len(s) < 4 || s[:4] != "var:" {
+		return errors.New("CustomVar: expected var:<hex>")
+	}
+	b, err := hex.DecodeString(s[4:])
+	if err != nil {
+		return err
+	}
+	if len(b) > 65535 {
+		return errors.New("CustomVar: too long")
+	}
+	c.B = b
+
+	return nil
 }
 
 // Embedded pool structs.
